@@ -60,7 +60,20 @@ fn cp(class: &str, detail: String) -> Complaint {
     }
 }
 
+struct Pending {
+    id: u32,
+    host: usize,
+    to: SocketAddr,
+    slot: Rc<RefCell<ConnSlot>>,
+    /// listener the SYN reached (model's choice at that time)
+    listener: Option<u32>,
+    /// what the model required when the SYN was delivered
+    want: Result<(), ErrorKind>,
+    local: SocketAddr,
+}
+
 pub struct Exec {
+    pending: Option<Pending>,
     pub model: Model,
     real: BTreeMap<u32, Real>,
     pub out: Out,
@@ -83,6 +96,7 @@ impl Exec {
         let kc = KernelConfig::default().retx_threshold(THR).retx_max(MAX);
         let world = World::new(kc, hosts, |_| {});
         Exec {
+            pending: None,
             model: Model {
                 hosts: hosts.to_vec(),
                 socks: BTreeMap::new(),
@@ -123,11 +137,78 @@ impl Exec {
             Op::Bind { id, host, proto, addr, port } => self.op_bind(*id, *host, *proto, *addr, *port)?,
             Op::UdpConnect { sock, to } => self.op_uconn(*sock, *to)?,
             Op::TcpConnect { id, host, to } => {
+                self.resolve_pending()?;
                 self.op_tconn(*id, *host, *to)?;
             }
-            Op::Close { sock, server_first } => self.op_close(*sock, *server_first)?,
+            Op::HalfOpen { id, host, to } => {
+                self.resolve_pending()?;
+                self.op_half_open(*id, *host, *to)?;
+            }
+            Op::Close { sock, server_first } => {
+                let closed = self.model.socks.get(sock).cloned();
+                self.op_close(*sock, *server_first)?;
+                if let Some(c) = closed {
+                    if c.role == Role::Listener {
+                        self.diagnose_listener_close(&c)?;
+                    }
+                }
+            }
         }
         self.check_counts("after op")
+    }
+
+    /// Diagnosis for one specific table mismatch right after a listener was
+    /// closed: exactly the half-open children of *another, still live*
+    /// listener (same port number, other address family) are gone. The
+    /// signature of this complaint is the diagnosis, not the history, so the
+    /// one root cause has one identity however the history reached it.
+    fn diagnose_listener_close(&mut self, closed: &MSock) -> Res {
+        let h = closed.host;
+        let victims: Vec<u32> = self
+            .model
+            .socks
+            .iter()
+            .filter(|(_, s)| {
+                s.host == h
+                    && s.port == closed.port
+                    && s.addr.is_ipv4() != closed.addr.is_ipv4()
+                    && matches!(s.role, Role::HalfChild { listener } if self.model.socks.contains_key(&listener))
+            })
+            .map(|(l, _)| *l)
+            .collect();
+        if victims.is_empty() {
+            return Ok(());
+        }
+        let want = self.model.counts(h);
+        let c = turmoil_net::verif::host_counts_by_id(self.world.id(h));
+        let k = victims.len();
+        let keys_gone = {
+            // binding keys that only the victims occupy
+            let mut m2 = self.model.clone();
+            for v in &victims {
+                m2.socks.remove(v);
+            }
+            want.1 - m2.counts(h).1
+        };
+        if (c.sockets, c.bindings, c.binding_fds, c.connections) == (want.0 - k, want.1 - keys_gone, want.2 - k, want.3 - k) {
+            let fam = |v4: bool| if v4 { "v4" } else { "v6" };
+            return Err(Complaint {
+                class: format!(
+                    "diag:listener-close-reaps-other-family-half-open|closed={}-{},victim={}",
+                    fam(closed.addr.is_ipv4()),
+                    if closed.addr.is_unspecified() { "wildcard" } else { "specific" },
+                    fam(!closed.addr.is_ipv4())
+                ),
+                detail: format!(
+                    "closing the {} listener {} on host {h} removed {k} still-handshaking child(ren) of the live {} listener on the same port number: table has (sockets,bindings,binding_fds,connections)=({},{},{},{}), model expects {want:?}",
+                    fam(closed.addr.is_ipv4()),
+                    closed.sa(),
+                    fam(!closed.addr.is_ipv4()),
+                    c.sockets, c.bindings, c.binding_fds, c.connections
+                ),
+            });
+        }
+        Ok(())
     }
 
     fn op_bind(&mut self, id: u32, host: usize, proto: Proto, addr: IpAddr, port: u16) -> Res {
@@ -412,17 +493,133 @@ impl Exec {
         Ok(())
     }
 
+    /// Start a connect and deliver exactly its SYN: the client sits in
+    /// SynSent, a selected listener has a SynReceived child whose SYN-ACK is
+    /// not yet on the wire.
+    fn op_half_open(&mut self, id: u32, host: usize, to: SocketAddr) -> Res {
+        if host >= self.model.hosts.len() || self.model.socks.contains_key(&id) {
+            return Ok(());
+        }
+        if !to.ip().is_loopback() && !self.has_family(host, to.is_ipv4()) {
+            self.out.count("skipped_no_source_address", 1);
+            return Ok(());
+        }
+        // loopback / own-address targets complete inside one egress: there
+        // is no half-open instant to stop at
+        if self.model.dst_host(host, to.ip()) == Some(host) {
+            return self.op_tconn(id, host, to);
+        }
+        let (want, want_l) = self.tconn_expect(host, to);
+        let slot = self.spawn_connect(host, to);
+        self.world.settle();
+        let local = turmoil_net::netstat(self.model.hosts[host][0])
+            .entries
+            .iter()
+            .find(|e| e.proto == turmoil_net::Proto::Tcp && e.peer == Some(to) && e.state == Some(turmoil_net::NetstatState::SynSent))
+            .map(|e| e.local);
+        let Some(local) = local else {
+            // failed on the first poll (no packet left): nothing is half open
+            let got = slot.borrow().done.clone();
+            return Err(cp("connect-outcome:early", format!("connect from host {host} to {to} ended {got:?} before sending a SYN")));
+        };
+        self.check_client_local(host, to, local)?;
+        self.world.clean_round();
+        self.ports_seen.insert(local.port());
+        self.model.socks.insert(id, MSock { host, proto: Proto::Tcp, addr: local.ip(), port: local.port(), role: Role::Half { peer: to } });
+        if let Some(l) = want_l {
+            let d = self.model.socks[&l].host;
+            self.model.socks.insert(id + 100_000, MSock { host: d, proto: Proto::Tcp, addr: to.ip(), port: to.port(), role: Role::HalfChild { listener: l } });
+        }
+        self.out.count("half_open_connects", 1);
+        self.pending = Some(Pending { id, host, to, slot, listener: want_l, want, local });
+        Ok(())
+    }
+
+    /// Let the half-open connect finish and bring the model up to date.
+    pub fn resolve_pending(&mut self) -> Res {
+        let Some(p) = self.pending.take() else {
+            return Ok(());
+        };
+        for _ in 0..R {
+            self.world.clean_round();
+            if p.slot.borrow().done.is_some() {
+                break;
+            }
+        }
+        self.world.settle();
+        let child = p.id + 100_000;
+        // the listener the SYN reached was closed meanwhile: its child was
+        // reset, the connect is refused
+        let listener_closed = p.listener.map(|l| !self.model.socks.contains_key(&l)).unwrap_or(false);
+        let want = if listener_closed { Err(ErrorKind::ConnectionRefused) } else { p.want.clone() };
+        let got = p.slot.borrow().done.clone();
+        let taken = p.slot.borrow_mut().stream.take();
+        let stream = taken.map(|st| self.world.scoped(p.host, st));
+        let desc = format!("half-open connect {} -> {} (host {})", p.local, p.to, p.host);
+        let Some(got) = got else {
+            return Err(cp("connect-hang", format!("{desc} still pending after {R} rounds")));
+        };
+        if got != want {
+            return Err(cp(
+                &format!("connect-outcome:{}-want-{}", fmt_res(&got), fmt_res(&want)),
+                format!("{desc} ended {got:?}, the model requires {want:?}{}", if listener_closed { " (its listener was closed mid-handshake)" } else { "" }),
+            ));
+        }
+        self.out.count(&format!("half_open_resolved_{}", fmt_res(&got)), 1);
+        if got.is_err() {
+            drop(stream);
+            self.model.socks.remove(&p.id);
+            self.model.socks.remove(&child);
+            self.world.clean_rounds(Q);
+            return Ok(());
+        }
+        let l = p.listener.unwrap();
+        self.world.clean_round();
+        let Some((srv, peer)) = self.try_accept(l) else {
+            return Err(cp("accept-missing", format!("{desc}: connect returned Ok but the listener has nothing to accept")));
+        };
+        let d = self.model.socks[&l].host;
+        self.world.cur(d);
+        let (sl, sp) = (srv.local_addr().unwrap(), srv.peer_addr().unwrap());
+        let srv = self.world.scoped(d, srv);
+        if peer != p.local || sp != p.local || sl != p.to {
+            return Err(cp("accept-addr-mismatch", format!("{desc} accepted with local={sl} peer={sp} returned peer={peer}")));
+        }
+        self.model.socks.get_mut(&p.id).unwrap().role = Role::Stream { peer: p.to, mate: child };
+        self.model.socks.get_mut(&child).unwrap().role = Role::Stream { peer: p.local, mate: p.id };
+        self.real.insert(p.id, Real::Stream(stream.unwrap()));
+        self.real.insert(child, Real::Stream(srv));
+        Ok(())
+    }
+
     fn op_close(&mut self, sock: u32, server_first: bool) -> Res {
         let Some(m) = self.model.socks.get(&sock).cloned() else {
             return Ok(());
         };
         match m.role {
+            Role::Half { .. } | Role::HalfChild { .. } => return Ok(()),
             Role::Udp { .. } | Role::Listener => {
                 self.real.remove(&sock);
                 self.model.socks.remove(&sock);
+                if m.role == Role::Listener {
+                    // closing a listener resets and reaps its still
+                    // handshaking children
+                    let kids: Vec<u32> = self
+                        .model
+                        .socks
+                        .iter()
+                        .filter(|(_, s)| s.role == Role::HalfChild { listener: sock })
+                        .map(|(l, _)| *l)
+                        .collect();
+                    for k in kids {
+                        self.model.socks.remove(&k);
+                        self.out.count("listener_closed_with_half_open_child", 1);
+                    }
+                }
                 self.out.count(&format!("close_{}", if m.proto == Proto::Udp { "udp" } else { "listener" }), 1);
             }
             Role::Stream { mate, .. } => {
+                self.resolve_pending()?;
                 let (a, b) = if server_first { (sock.max(mate), sock.min(mate)) } else { (sock.min(mate), sock.max(mate)) };
                 self.real.remove(&a);
                 self.world.clean_round();
@@ -825,6 +1022,8 @@ pub fn run_history(h: &History) -> Out {
             for op in &h.ops {
                 ex.apply(op)?;
             }
+            ex.resolve_pending()?;
+            ex.check_counts("after resolving the half-open connect")?;
             ex.out.count("histories_probed", 1);
             ex.exchange_established("before probes")?;
             ex.probe_udp()?;
